@@ -271,8 +271,9 @@ only when the one in hand is disposed of or held, re-inject only what is held, h
 the oldest event it has. `processor_obeys_discipline` shows that the control flow of
 processor.go (dischargeStream / processEvent / doActions / Propagate / Spawn) with join-like and
 split-like actions never leaves those guards when at most one action of the chain can hold
-events and no plain action upstream of it breaks; with two holders it does
-(`processor_discipline_counterexample_two_holders`, the known finding of the nested Propagate). -/
+events and no plain action upstream of it breaks. (Before `fix: processor.Propagate` two holders
+broke it — the nested-Propagate finding; the former counterexample run is kept below as an example
+that is now accepted.) -/
 
 /-- every operation sequence the processor emits is accepted by the discipline automaton -/
 def ProcessorObeysDiscipline : Prop :=
@@ -360,18 +361,34 @@ example : (Proc.discharge 40 [.plain 0, .holder 0, .spawner] (Proc.PS.init
        .ev { seq := 3, js := [.other], kids := 2 }, .gap])).1.toks =
     [.get 1, .hold 1, .get 2, .drop 2, .getTimeout, .propagate 1, .out 1, .get 3, .out 3, .leave] := by decide +kernel
 
-/-- two joins in one chain (the nested-Propagate known finding): the second join holds the event
-    the first one re-injects, the nested frame takes event 5 while 4 is still in hand -/
+/-- two joins in one chain: before `fix: processor.Propagate` the nested frame of the first
+    join's flush waited for the stream's next event itself (the second join held the re-injected
+    event), took event 5 while 4 was still in hand and handed 5 over first. With Propagate running
+    the remaining actions once, the same input stays inside the discipline. -/
 def twoHolders : List Proc.Act := [.holder 0, .holder 1]
 def twoHoldersIns : List Proc.Item :=
   [.ev { seq := 1, js := [.other, .start] }, .ev { seq := 2, js := [.start, .cont] }, .ev { seq := 3, js := [.cont, .cont] },
    .ev { seq := 4, js := [.other, .other] }, .ev { seq := 5, js := [.other, .other] }]
 
-theorem processor_discipline_counterexample_two_holders : ¬ ProcessorObeysDiscipline := by
+example : (Proc.discharge 40 twoHolders (Proc.PS.init twoHoldersIns)).1.toks =
+    [.get 1, .hold 1, .get 2, .hold 2, .get 3, .drop 3, .get 4, .propagate 2, .drop 2, .propagate 1, .out 1,
+     .out 4, .get 5, .out 5] := by decide +kernel
+
+example : (Proc.drun {} (Proc.discharge 40 twoHolders (Proc.PS.init twoHoldersIns)).1.toks).isSome = true := by
+  decide +kernel
+
+/-- the full statement is false for a reason no shipped plugin set exhibits: a plain action that
+    *breaks* upstream of a busy holder sends its event past the held one (source fact: only split
+    returns ActionBreak, and Spawn first flushes every busy action) -/
+def breakUpstream : List Proc.Act := [.plain 0, .holder 0]
+def breakUpstreamIns : List Proc.Item :=
+  [.ev { seq := 1, js := [.start] }, .ev { seq := 2, vs := [.brk], js := [.cont] }]
+
+theorem processor_discipline_counterexample_break_upstream : ¬ ProcessorObeysDiscipline := by
   intro h
-  have hab : Proc.Above 0 twoHoldersIns := by simp [Proc.Above, twoHoldersIns]
-  obtain ⟨d, hd⟩ := h twoHolders twoHoldersIns 40 hab
-  have : Proc.drun {} (Proc.discharge 40 twoHolders (Proc.PS.init twoHoldersIns)).1.toks = none := by decide +kernel
+  have hab : Proc.Above 0 breakUpstreamIns := by simp [Proc.Above, breakUpstreamIns]
+  obtain ⟨d, hd⟩ := h breakUpstream breakUpstreamIns 40 hab
+  have : Proc.drun {} (Proc.discharge 40 breakUpstream (Proc.PS.init breakUpstreamIns)).1.toks = none := by decide +kernel
   rw [this] at hd; cases hd
 
 end FileD.PropsC02
